@@ -13,7 +13,7 @@
    The functions run_* predict the same observations from the model (C13/Model.v).  No proofs in this file. *)
 From Coq Require Import ZArith List Bool.
 Import ListNotations.
-From V Require Import Base.Tree Base.Bytes C13.Model.
+From V Require Import Base.Tree Base.Bytes C13.Model C13.Closers.
 Open Scope Z_scope.
 
 Definition fuel : nat := 4000.
@@ -305,6 +305,100 @@ Definition sp_close_waits (i o : tree) : bool :=
   (t_int (t_nth 0 o) =? 1) &&
   (if t_bool (t_nth 1 i) then tree_eqb (t_nth 1 o) (TL [TI 1]) else true).
 
+(* ------------------------------------------------------------------ fn 10: several closers of one channel *)
+(* run_cclose / sp_cclose: C13/Closers.v (shared with C12); C13 does not read the packet numbers *)
+
+(* ------------------------------------------------------------------ fn 11: packets for a closed channel *)
+(* input (kind closevia via ((hdronly eom typ partial) ...))
+   output (close-code (returned ...) (queued-packages queued-errors) (invalid-id ...) next-code connclose-returned reader-ended) *)
+Definition pkt_of_tree (t : tree) (n : Z) : pkt :=
+  if t_bool (t_nth 0 t) then PHdr (t_bool (t_nth 1 t)) n
+  else PBody (t_bool (t_nth 1 t)) ((if t_bool (t_nth 3 t) then [] else [n]) ++ (if t_bool (t_nth 1 t) then [-1] else [])).
+
+Definition reader_idle (s : sys) : bool :=
+  match rp s, incoming s with RRead, [] => true | REnd, _ => true | _, _ => false end.
+
+(* the packets one after the other; after each the connection's error queue is emptied.  Result: per packet 1 (the
+   call returned / the reader asks for the next packet) or 9, the number of errors raised, the state *)
+Fixpoint late_packets (direct : bool) (ps : list pkt) (s : sys) : list Z * Z * sys :=
+  match ps with
+  | [] => ([], 0, s)
+  | p :: r =>
+      let s1 := if direct then run_reader fuel (direct_write s (pkt_items p))
+                else run_reader fuel (add_incoming s [rin_pkt true p]) in
+      let ok := if direct then negb (in_write_packet s1) else reader_idle s1 in
+      if ok then let '(rs, e, s2) := late_packets direct r (drain_cerr s1) in (1 :: rs, cerr s1 + e, s2)
+      else ([9], cerr s1, s1)
+  end.
+
+Fixpoint pkts_of_trees (ts : list tree) (n : Z) : list pkt :=
+  match ts with [] => [] | t :: r => pkt_of_tree t n :: pkts_of_trees r (n + 1) end.
+
+(* Conn.Close from outside the system (the channel observed is closed already): context cancelled, transport closed *)
+Definition conn_closed_later (s : sys) : sys := run_reader fuel (set_tclosed (set_conn_done s)).
+
+Definition run_late (i : tree) : tree :=
+  let kind := t_int (t_nth 0 i) in
+  let cvia := t_bool (t_nth 1 i) in
+  let direct := t_int (t_nth 2 i) =? 0 in
+  let ps := pkts_of_trees (t_list (t_nth 3 i)) 100 in
+  let s1 := run_all fuel (run_reader fuel (sys0 4 10 (kind =? 0) cvia (kind =? 0) [])) in
+  let '(rs, nerr, s2) := late_packets direct ps (drain_cerr s1) in
+  let stuck := existsb (fun r => r =? 9) rs in
+  let s3 := if cvia then s2 else conn_closed_later s2 in
+  TL [TI (closer_code s1);
+      TL (map TI rs);
+      TL [TI (zlen (pq s2)); TI 0];
+      TL (map (fun _ => TI (if kind =? 0 then 0 else 1)) (zseq nerr));
+      (if stuck then TI 9 else match next_package (nstate_of s2 false) false with r :: _ => t_nth 0 (code_tree r) | [] => TI 9 end);
+      TI 1;
+      of_bool (reader_ended s3)].
+
+(* "After a channel is closed ... nothing further is delivered from it", nothing blocks, "closing the connection ...
+   ends the reader"; (C12: "Packets for a channel that does not exist are reported as a connection error and otherwise
+   ignored": through the reader every packet is reported once with the id, a direct call reports nothing) *)
+Definition sp_late (i o : tree) : bool :=
+  let n := length (t_list (t_nth 3 i)) in
+  let id := if t_int (t_nth 0 i) =? 0 then 0 else 1 in
+  negb (t_int (t_nth 0 o) =? 9) && negb (t_int (t_nth 0 o) =? -1) &&
+  (length (t_list (t_nth 1 o)) =? n)%nat && forallb (fun r => t_int r =? 1) (t_list (t_nth 1 o)) &&
+  tree_eqb (t_nth 2 o) (TL [TI 0; TI 0]) &&
+  tree_eqb (t_nth 3 o) (TL (if t_int (t_nth 2 i) =? 0 then [] else repeat (TI id) n)) &&
+  (t_int (t_nth 4 o) =? 2) && (t_int (t_nth 5 o) =? 1) && (t_int (t_nth 6 o) =? 1).
+
+(* ------------------------------------------------------------------ fn 12: a packet in the window between lookup and lock *)
+(* input (closer (hdronly eom typ partial))
+   output (close-parked reader-parked close-returned close-code consumer-result queued reader-idle connclose-returned reader-ended)
+   a consumer parked in NextPackage holds the read lock (rd = 1 from outside); Close (closer 0) / Conn.Close (closer 1)
+   announces its Lock; the packet arrives and the reader, having found the channel registered, queues at the RLock;
+   the consumer's context is cancelled; everybody runs on *)
+Definition window_states (i : tree) : sys * sys * sys :=
+  let cc := t_int (t_nth 0 i) =? 1 in
+  let sA := run_all fuel (set_rd (sys0 4 10 false cc false []) 1) in
+  let sB := run_reader fuel (add_incoming sA [rin_pkt true (pkt_of_tree (t_nth 1 i) 7)]) in
+  (sA, sB, run_all fuel (release sB)).
+
+Definition run_window (i : tree) : tree :=
+  let cc := t_int (t_nth 0 i) =? 1 in
+  let '(sA, sB, sC) := window_states i in
+  let s_end := if cc then sC else conn_closed_later sC in
+  TL [of_bool (match cp sA with CLockAcq => true | _ => false end);
+      of_bool (match rp sB with RLockCh _ => true | _ => false end);
+      of_bool (closer_done sC);
+      TI (closer_code sC);
+      (match next_package (mkN false [] [] 0 0 true false) true with r :: _ => code_tree r | [] => code_tree NBlock end);
+      TI (zlen (pq sC));
+      of_bool (reader_idle sC);
+      TI 1;
+      of_bool (reader_ended s_end)].
+
+(* Close returns once the consumer is gone, the consumer gets the error of its context, nothing is delivered, the
+   reader is not held up by the closed channel and ends with the connection *)
+Definition sp_window (i o : tree) : bool :=
+  (t_int (t_nth 2 o) =? 1) && ((t_int (t_nth 3 o) =? 0) || (t_int (t_nth 3 o) =? 1)) &&
+  tree_eqb (t_nth 4 o) (TL [TI 1]) && (t_int (t_nth 5 o) =? 0) && (t_int (t_nth 6 o) =? 1) &&
+  (t_int (t_nth 7 o) =? 1) && (t_int (t_nth 8 o) =? 1).
+
 (* ------------------------------------------------------------------ dispatch *)
 Definition run (fn : Z) (i : tree) : tree :=
   match fn with
@@ -317,6 +411,9 @@ Definition run (fn : Z) (i : tree) : tree :=
   | 7 => run_conn_close i
   | 8 => run_close_race i
   | 9 => run_close_waits i
+  | 10 => run_cclose i
+  | 11 => run_late i
+  | 12 => run_window i
   | _ => tbad
   end.
 
@@ -331,5 +428,8 @@ Definition spec (fn : Z) (i o : tree) : bool :=
   | 7 => sp_conn_close i o
   | 8 => sp_close_race i o
   | 9 => sp_close_waits i o
+  | 10 => sp_cclose false i o
+  | 11 => sp_late i o
+  | 12 => sp_window i o
   | _ => false
   end.
